@@ -95,10 +95,14 @@ def machine_config(idx, steps, max_iter=None):
     on = {}
     for st in steps:
         if st[0] == "do" and st[1] == idx:
-            on["O%d" % st[2]] = {"actions": [action_json(o) for o in st[3]]}
+            on["O%d" % st[2]] = {"actions": [action_json(o) for o in st[3] if o[0] != "finish"]}
+            if any(o[0] == "finish" for o in st[3]):
+                # (implementation-only scenarios, C14: the actor reaches a top-level final state - status `done` - while it
+                #  still owns children and pending delayed sends; Model/Actors.v has no such step)
+                on["O%d" % st[2]]["target"] = "end"
     on["*"] = {"actions": ["recv"]}
     cfg = {"id": "m" if idx == 0 else "child%d" % idx, "initial": "on", "context": {},
-           "states": {"on": {"entry": ["hello"], "on": on}}}
+           "states": {"on": {"entry": ["hello"], "on": on}, "end": {"type": "final"}}}
     if max_iter is not None:
         cfg["maxIterations"] = max_iter
     return cfg
@@ -125,6 +129,8 @@ class ARec:
         self.trace.append(dict(
             t=round(self.clock(), 3),
             running=[a.status == "running" for a in self.actors],
+            status=[str(a.status) for a in self.actors],
+            sends=[len(a._scheduled_sends) for a in self.actors],
             nin=[len(self.inbox.get(id(a), [])) for a in self.actors],
             children=[[self.idx(c) for c in a._actors.values()] for a in self.actors],
             parent=[self.idx(a.parent) if a.parent is not None else None for a in self.actors],
